@@ -51,6 +51,25 @@ impl SO3State {
     /// ```
     pub fn normalise(&mut self) -> Result<Self, StateError> {
         let norm = (self.x.powi(2) + self.y.powi(2) + self.z.powi(2) + self.w.powi(2)).sqrt();
+        if norm.is_infinite() {
+            // The squares overflow for components beyond ~1e154: rescale by the largest
+            // component first (dividing by an infinite norm would yield the zero quaternion).
+            let max_abs = self
+                .x
+                .abs()
+                .max(self.y.abs())
+                .max(self.z.abs())
+                .max(self.w.abs());
+            if max_abs.is_finite() {
+                return SO3State {
+                    x: self.x / max_abs,
+                    y: self.y / max_abs,
+                    z: self.z / max_abs,
+                    w: self.w / max_abs,
+                }
+                .normalise();
+            }
+        }
         if norm < 1e-9 {
             Err(StateError::ZeroMagnitude)
         } else {
